@@ -260,7 +260,26 @@ struct ConfigResult {
     secs: f64,
 }
 
+/// One database per batch of crates (memory), results concatenated.
 fn run_config(c: Config, units: &[Unit], dir: &Path, translate: bool) -> ConfigResult {
+    let t0 = std::time::Instant::now();
+    let mut res = ConfigResult { diags: vec![], compile_failures: vec![], compiled_units: 0, sierra_funcs: 0, casm_instructions: 0, cases: vec![], secs: 0.0 };
+    let mut off = 0;
+    for batch in units.chunks(1000) {
+        let r = run_batch(c, batch, dir, translate);
+        res.diags.extend(r.diags);
+        res.compile_failures.extend(r.compile_failures.into_iter().map(|(ix, a, b)| (ix.into_iter().map(|i| i + off).collect(), a, b)));
+        res.compiled_units += r.compiled_units;
+        res.sierra_funcs += r.sierra_funcs;
+        res.casm_instructions += r.casm_instructions;
+        res.cases.extend(r.cases.into_iter().map(|(i, c)| (i + off, c)));
+        off += batch.len();
+    }
+    res.secs = t0.elapsed().as_secs_f64();
+    res
+}
+
+fn run_batch(c: Config, units: &[Unit], dir: &Path, translate: bool) -> ConfigResult {
     let t0 = std::time::Instant::now();
     vcommon::quiet_panics();
     let mut db = build_db(c);
@@ -283,8 +302,9 @@ fn run_config(c: Config, units: &[Unit], dir: &Path, translate: bool) -> ConfigR
             for (k, f) in fns.into_iter().enumerate() {
                 let name = format!("{}/{k}", units[i].name);
                 match catch(AssertUnwindSafe(|| trans::translate(&db, f, name.clone()))) {
-                    Ok(Ok(c)) => cases.push((i, Ok(c))),
-                    Ok(Err(_)) => {}
+                    Ok(Ok(Some(c))) => cases.push((i, Ok(c))),
+                    Ok(Ok(None)) => {}
+                    Ok(Err(e)) => cases.push((i, Err(e))),
                     Err(p) => cases.push((i, Err(format!("panic in borrow_check/translate of {name}: {p} @ {}", vcommon::last_panic_location())))),
                 }
             }
@@ -323,7 +343,7 @@ fn main() {
     let corpus = corpus_units();
     let n_corpus = corpus.len();
     units.extend(corpus);
-    units.extend(generated_units(&mut rng, if thorough { 900 } else { 110 }, &mut shapes));
+    units.extend(generated_units(&mut rng, if thorough { 2000 } else { 150 }, &mut shapes));
     let progs = out.join("progs");
     let _ = std::fs::remove_dir_all(&progs);
     for u in &units {
@@ -349,6 +369,7 @@ fn main() {
     let mut n_base_accepted = 0;
     let mut accepted_all = 0;
     let mut n_corpus_accepted = 0;
+    let mut rejected_samples = vec![];
     for (i, u) in units.iter().enumerate() {
         let mut acc = true;
         for (k, r) in results.iter().enumerate() {
@@ -370,7 +391,9 @@ fn main() {
             let want = match inj { pgen::Inject::UseAfterMove(_) => "previously moved", pgen::Inject::MissingDrop(_) => "not dropped" };
             if results[0].diags[i].msgs.iter().any(|m| m.contains(want)) { n_inj_kind_ok += 1; }
         }
-        if u.gen_base { n_base += 1; if acc { n_base_accepted += 1; } }
+        if u.gen_base { n_base += 1; if acc { n_base_accepted += 1; } else if rejected_samples.len() < 8 {
+            rejected_samples.push(json!({"unit": u.name, "errors": results.iter().flat_map(|r| r.diags[i].msgs.iter().take(2).cloned()).take(4).collect::<Vec<_>>()}));
+        } }
         if u.name.starts_with("rg_") && acc { n_corpus_accepted += 1; }
         if acc { accepted_all += 1; }
     }
@@ -395,7 +418,8 @@ fn main() {
     }
     for (i, c) in &results[0].cases {
         if let Err(p) = c {
-            failures.push(json!({"kind": "panic_in_borrow_check", "why": p, "config": CONFIGS[0].name,
+            let kind = if p.starts_with("translator out of date") { "translator_out_of_date" } else { "panic_in_borrow_check" };
+            failures.push(json!({"kind": kind, "why": p, "config": CONFIGS[0].name,
                 "unit": units[*i].name, "origin": units[*i].origin, "program": units[*i].text}));
         }
     }
@@ -447,7 +471,7 @@ fn main() {
     let summary = json!({
         "units": units.len(), "test_data_units": n_td, "example_units": n_ex, "regression_corpus_units": n_corpus, "regression_corpus_units_accepted_and_compiled_in_all_configs": n_corpus_accepted,
         "generated_base": n_base, "generated_base_accepted_in_all_configs": n_base_accepted,
-        "injected_units": n_inj, "injected_with_expected_diagnostic_kind": n_inj_kind_ok,
+        "generated_base_rejected_samples": rejected_samples, "injected_units": n_inj, "injected_with_expected_diagnostic_kind": n_inj_kind_ok,
         "units_accepted_in_all_configs": accepted_all,
         "configs": cfg_summ,
         "functions_translated": all_cases.len(), "function_cases_after_dedup": cases.len(), "functions_distinct": distinct.len(), "functions_nontrivial_distinct": nontrivial.len(),
